@@ -193,48 +193,59 @@ def words64 : List UInt8 → List UInt64
 
 /-! ### Auto-aligned front end -/
 
-/-- `cjet_is_word_sequence_valid_auto_alligned`.
-    `width` = `sizeof(uint_fast16_t)` of the platform (8 on x86-64 glibc), `addr` = the numeric value
-    of `sequence` (only `addr % 8` resp. `addr % 4` matters), `bs` = the `byte_length` bytes there.
-    The three calls are made unconditionally and their results and-ed, exactly as in the C code
-    (`ret = …; ret &= …; ret &= …`).  `size_t` subtraction cannot wrap here: the word cases are
-    entered only with `byte_length ≥ 8 ≥ pre_length`. -/
-def autoAligned (width : Nat) (addr : Nat) (c : Checker) (bs : List UInt8) (complete : Bool) :
+/-- `case 8:` of the auto-aligned front end: bytes up to the next 8-byte boundary (all 8 when the
+    pointer is already aligned), whole 64-bit words, remaining bytes.  The three calls are made
+    unconditionally and their results and-ed, exactly as in the C code (`ret = …; ret &= …;
+    ret &= …`).  `size_t` subtraction cannot wrap: this case is entered only with
+    `byte_length ≥ 8 ≥ pre_length`. -/
+def autoWords64 (addr : Nat) (c : Checker) (bs : List UInt8) : Bool × Checker :=
+  let preLength := 8 - addr % 8
+  let mainLength := (bs.length - preLength) >>> 3
+  let r1 := byteSeq c (bs.take preLength) false
+  let r2 := word64Seq r1.2 (words64 ((bs.drop preLength).take (mainLength <<< 3))) false
+  let r3 := byteSeq r2.2 (bs.drop (preLength + (mainLength <<< 3))) false
+  (r1.1 && r2.1 && r3.1, r3.2)
+
+/-- `case 4:` of the auto-aligned front end. -/
+def autoWords32 (addr : Nat) (c : Checker) (bs : List UInt8) : Bool × Checker :=
+  let preLength := 4 - addr % 4
+  let mainLength := (bs.length - preLength) >>> 2
+  let r1 := byteSeq c (bs.take preLength) false
+  let r2 := word32Seq r1.2 (words32 ((bs.drop preLength).take (mainLength <<< 2))) false
+  let r3 := byteSeq r2.2 (bs.drop (preLength + (mainLength <<< 2))) false
+  (r1.1 && r2.1 && r3.1, r3.2)
+
+/-- `switch (bytewidth)` of the auto-aligned front end. -/
+def autoSwitch (bytewidth addr : Nat) (c : Checker) (bs : List UInt8) (complete : Bool) :
     Bool × Checker :=
-  let byteLength := bs.length
-  let bytewidth := if byteLength < 8 then 1 else width
-  let r : Bool × Checker :=
-    if bytewidth == 8 then
-      let preLength := 8 - addr % 8
-      let mainLength := (byteLength - preLength) >>> 3
-      let r1 := byteSeq c (bs.take preLength) false
-      let r2 := word64Seq r1.2 (words64 ((bs.drop preLength).take (mainLength <<< 3))) false
-      let r3 := byteSeq r2.2 (bs.drop (preLength + (mainLength <<< 3))) false
-      (r1.1 && r2.1 && r3.1, r3.2)
-    else if bytewidth == 4 then
-      let preLength := 4 - addr % 4
-      let mainLength := (byteLength - preLength) >>> 2
-      let r1 := byteSeq c (bs.take preLength) false
-      let r2 := word32Seq r1.2 (words32 ((bs.drop preLength).take (mainLength <<< 2))) false
-      let r3 := byteSeq r2.2 (bs.drop (preLength + (mainLength <<< 2))) false
-      (r1.1 && r2.1 && r3.1, r3.2)
-    else
-      byteSeq c bs complete
+  if bytewidth == 8 then autoWords64 addr c bs
+  else if bytewidth == 4 then autoWords32 addr c bs
+  else byteSeq c bs complete
+
+/-- The `if (is_complete)` epilogue of the auto-aligned front end. -/
+def autoEpilogue (r : Bool × Checker) (complete : Bool) : Bool × Checker :=
   if complete && r.2.start != ucFinish then (false, init) else r
 
-/-- The same front end over the pre-fix word paths (used for the F22 counterexample). -/
+/-- `cjet_is_word_sequence_valid_auto_alligned`.
+    `width` = `sizeof(uint_fast16_t)` of the platform (8 on x86-64 glibc), `addr` = the numeric value
+    of `sequence` (only `addr % 8` resp. `addr % 4` matters), `bs` = the `byte_length` bytes there. -/
+def autoAligned (width : Nat) (addr : Nat) (c : Checker) (bs : List UInt8) (complete : Bool) :
+    Bool × Checker :=
+  let bytewidth := if bs.length < 8 then 1 else width
+  autoEpilogue (autoSwitch bytewidth addr c bs complete) complete
+
+/-- `case 8:` over the pre-fix 64-bit word path (used for the F22 counterexample). -/
+def autoWords64Old (addr : Nat) (c : Checker) (bs : List UInt8) : Bool × Checker :=
+  let preLength := 8 - addr % 8
+  let mainLength := (bs.length - preLength) >>> 3
+  let r1 := byteSeq c (bs.take preLength) false
+  let r2 := word64SeqOld r1.2 (words64 ((bs.drop preLength).take (mainLength <<< 3))) false
+  let r3 := byteSeq r2.2 (bs.drop (preLength + (mainLength <<< 3))) false
+  (r1.1 && r2.1 && r3.1, r3.2)
+
+/-- The front end (width 8) over the pre-fix word path. -/
 def autoAlignedOld (addr : Nat) (c : Checker) (bs : List UInt8) (complete : Bool) : Bool × Checker :=
-  let byteLength := bs.length
-  let r : Bool × Checker :=
-    if byteLength < 8 then byteSeq c bs complete
-    else
-      let preLength := 8 - addr % 8
-      let mainLength := (byteLength - preLength) >>> 3
-      let r1 := byteSeq c (bs.take preLength) false
-      let r2 := word64SeqOld r1.2 (words64 ((bs.drop preLength).take (mainLength <<< 3))) false
-      let r3 := byteSeq r2.2 (bs.drop (preLength + (mainLength <<< 3))) false
-      (r1.1 && r2.1 && r3.1, r3.2)
-  if complete && r.2.start != ucFinish then (false, init) else r
+  autoEpilogue (if bs.length < 8 then byteSeq c bs complete else autoWords64Old addr c bs) complete
 
 /-! ### Specification: RFC 3629 §4
 
@@ -306,5 +317,10 @@ def Checker.ok (c : Checker) : Bool :=
   || (inRange 0xC2 0xDF c.start && c.length == 2 && c.next == 2)
   || (inRange 0xE0 0xEF c.start && c.length == 3 && (c.next == 2 || c.next == 3))
   || (inRange 0xF0 0xF4 c.start && c.length == 4 && (c.next == 2 || c.next == 3 || c.next == 4))
+
+/-- Reachability: the states a checker can be in after `cjet_init_checker` and any number of bytes. -/
+inductive Reachable : Checker → Prop
+  | init : Reachable init
+  | step (c : Checker) (b : UInt8) : Reachable c → Reachable (isByteValid c b).2
 
 end Cjet.Utf8
